@@ -156,3 +156,120 @@ Theorem C08_nonvacuous :
   lk_inv (lk_run lk_ex2_history lk_ex2_state) /\ lk_bal (lk_run lk_ex2_history lk_ex2_state) = 35.
 Proof. exact lk_ex2_runs. Qed.
 Print Assumptions C08_nonvacuous.
+
+(** ---- account-type operations: MsgConvertVestingAccount, MsgConvertIntoVestingAccount, merges, funder ----
+    [lkx_state] = [lk_state] + the KIND of the stored account (clawback vesting / plain EthAccount) + the funder;
+    [lkx_step] = the code ([lkx_step_g LkGuardSchedule]): MsgConvertVestingAccount succeeds iff the account is a
+    vesting account, GetVestingCoins(t) is zero and GetLockedUpCoins(t) (the lock-up SCHEDULE: original - unlocked,
+    whatever is delegated) is zero; a plain account has no locked amount, no delegation guard, no tracking.
+    For a plain state [lk_a] is the vesting record the conversion discarded ("as if it had not been converted").
+    [lk_sched_locked a t] = original - unlockedVested = max(locked-up, unvested): what the schedule locks at t
+    regardless of delegation; the bank-facing [lk_locked_coins] never exceeds it. *)
+Theorem C08_locked_le_schedule_locked :
+  forall a t, lk_wf_b a = true -> 0 <= lk_df a + lk_dv a ->
+    0 <= lk_locked_coins a t <= lk_sched_locked a t /\ lk_sched_locked a t = Z.max (lk_locked_up a t) (lk_unvested a t).
+Proof. exact lk_locked_le_sched_full. Qed.
+Print Assumptions C08_locked_le_schedule_locked.
+
+(** a successful conversion: only of a vesting account whose schedule has nothing unvested and nothing locked
+    up at that block time; nothing but the kind changes *)
+Theorem C08_convert_requires_schedule_done :
+  forall s s', lkx_step s LxConvert = (s', LK_OK) ->
+    lx_vesting s = true /\ lk_unvested (lk_a (lx_s s)) (lk_now (lx_s s)) = 0 /\ lk_locked_up (lk_a (lx_s s)) (lk_now (lx_s s)) = 0 /\
+    lk_sched_locked (lk_a (lx_s s)) (lk_now (lx_s s)) = 0 /\ s' = mklkx (lx_s s) false (lx_funder s).
+Proof. exact lkx_convert_ok. Qed.
+Print Assumptions C08_convert_requires_schedule_done.
+
+(** unlocking and vesting are monotone: a schedule that locks nothing at t locks nothing at any later time,
+    and the bank-facing locked amount of that record is 0 whatever delegation it tracks *)
+Theorem C08_schedule_done_stays_done :
+  forall a t t', lk_wf_b a = true -> lk_sched_locked a t = 0 -> t <= t' ->
+    lk_sched_locked a t' = 0 /\ lk_unvested a t' = 0 /\ lk_locked_up a t' = 0 /\
+    (0 <= lk_df a + lk_dv a -> lk_locked_coins a t' = 0).
+Proof. exact lk_sched_zero_forever. Qed.
+Print Assumptions C08_schedule_done_stays_done.
+
+(** inside ANY history (all operations incl. conversions both ways, merges, funder changes, clawbacks, slashes),
+    whenever MsgConvertVestingAccount succeeds the schedule of the account locks nothing then and ever after *)
+Theorem C08_convert_in_any_history_only_when_unlocked :
+  forall pre s s', lkx_wfs s -> lkx_step (lkx_run pre s) LxConvert = (s', LK_OK) ->
+    let c := lx_s (lkx_run pre s) in
+    lk_unvested (lk_a c) (lk_now c) = 0 /\ lk_locked_up (lk_a c) (lk_now c) = 0 /\
+    (forall t, lk_now c <= t -> lk_sched_locked (lk_a c) t = 0 /\ lk_locked_coins (lk_a c) t = 0).
+Proof. exact lkx_convert_in_history. Qed.
+Print Assumptions C08_convert_in_any_history_only_when_unlocked.
+
+(** the invariant across kinds ([lkx_inv]: vesting: balance >= LockedCoins; plain: balance >= 0 and the discarded
+    schedule locks nothing) is preserved by every operation (a merge / conversion into vesting needs tracked <= actual) ... *)
+Theorem C08_balance_ge_locked_conversion_step :
+  forall s o, lkx_wfs s -> lkx_inv s -> (lkx_is_grant o = true -> lkx_tracked s) -> lkx_inv (fst (lkx_step s o)).
+Proof. exact lkx_step_inv. Qed.
+Print Assumptions C08_balance_ge_locked_conversion_step.
+
+(** ... hence after all histories over the extended operation set that do not merge a grant after a slash
+    ([_partial]: the same exclusion as [C08_balance_ge_locked_all_histories_partial], finding K11) *)
+Theorem C08_balance_ge_locked_survives_conversion_all_histories_partial :
+  forall ops s, lkx_wfs s -> lkx_inv s -> lkx_tracked s ->
+    lkx_no_grant_after_slash false ops = true -> lkx_inv (lkx_run ops s) /\ lkx_wfs (lkx_run ops s).
+Proof. exact lkx_run_inv_wfs_partial. Qed.
+Print Assumptions C08_balance_ge_locked_survives_conversion_all_histories_partial.
+
+(** what the invariant gives for a converted account: at every later block time the ORIGINAL obligation
+    (the discarded schedule, with any tracked delegation) is zero and covered by the balance *)
+Theorem C08_converted_account_owes_nothing :
+  forall s t, lkx_wfs s -> lkx_inv s -> lx_vesting s = false -> lk_now (lx_s s) <= t ->
+    let a := lk_a (lx_s s) in
+    lk_sched_locked a t = 0 /\ lk_unvested a t = 0 /\ lk_locked_up a t = 0 /\ lk_locked_coins a t = 0 /\
+    lk_locked_coins a t <= lk_bal (lx_s s).
+Proof. exact lkx_inv_plain_forever. Qed.
+Print Assumptions C08_converted_account_owes_nothing.
+
+(** "unvested coins are never delegated" holds after ALL histories over the extended operation set *)
+Theorem C08_unvested_not_delegated_all_histories_with_conversion :
+  forall ops s, lkx_wfs s -> lkx_safe s -> lkx_safe (lkx_run ops s) /\ lkx_wfs (lkx_run ops s).
+Proof. exact lkx_run_safe_wfs. Qed.
+Print Assumptions C08_unvested_not_delegated_all_histories_with_conversion.
+
+Theorem C08_fresh_account_ok_with_kind :
+  forall orig lockup vesting start endt extra now bond,
+    lk_wf_b (mklka orig lockup vesting start endt 0 0) = true -> 0 <= extra ->
+    let s := lkx_fresh orig lockup vesting start endt extra now bond in
+    lkx_wfs s /\ lkx_inv s /\ lkx_safe s /\ lkx_tracked s.
+Proof. exact lkx_fresh_ok. Qed.
+Print Assumptions C08_fresh_account_ok_with_kind.
+
+Theorem C08_failed_account_op_no_effect :
+  forall gd s o s' r, lkx_step_g gd s o = (s', r) -> r <> LK_OK -> s' = s.
+Proof. exact lkx_step_g_fail. Qed.
+Print Assumptions C08_failed_account_op_no_effect.
+
+(** With the conversion guard computed from the bank-facing locked amount (LockedCoins = original -
+    unlockedVested - min(delegated, lockedUpVested)) instead of the schedule, the history
+    [delegate all; convert; undelegate; wait; payout; send all] succeeds step by step on a fully vested grant
+    100 days inside its lock-up: the account is plain, its balance 0, while the schedule still locks all 1000
+    coins.  With the code's guard the conversion is refused (LK_LOCKED) and the last debit fails. *)
+Theorem C08_convert_bank_guard_refuted :
+  let s := lkx_run_g LkGuardBank lkx_escape_witness lkx_ex_start in
+  lkx_wfs lkx_ex_start /\ lkx_inv lkx_ex_start /\ lkx_tracked lkx_ex_start /\
+  lkx_no_grant_after_slash false lkx_escape_witness = true /\
+  lkx_results LkGuardBank lkx_escape_witness lkx_ex_start = [LK_OK; LK_OK; LK_OK; LK_OK; LK_OK; LK_OK] /\
+  lx_vesting s = false /\ lk_bal (lx_s s) = 0 /\ lk_now (lx_s s) = 2400 /\
+  lk_locked_up (lk_a (lx_s s)) 2400 = 1000 /\ lk_sched_locked (lk_a (lx_s s)) 2400 = 1000 /\ ~ lkx_inv s /\
+  lkx_results LkGuardSchedule lkx_escape_witness lkx_ex_start = [LK_OK; LK_LOCKED; LK_OK; LK_OK; LK_OK; LK_INSUFFICIENT] /\
+  lk_bal (lx_s (lkx_run lkx_escape_witness lkx_ex_start)) = 1000 /\ lkx_inv (lkx_run lkx_escape_witness lkx_ex_start).
+Proof. exact lkx_bank_guard_refuted. Qed.
+Print Assumptions C08_convert_bank_guard_refuted.
+
+(** non-vacuity of the conversion theorems: a 15-step history in which a conversion is refused inside the
+    lock-up, succeeds after it, the plain account spends, is converted into a vesting account again, the
+    funder changes, the stale funder's clawback is refused, the new funder's succeeds, and a final
+    conversion succeeds *)
+Theorem C08_conversion_nonvacuous :
+  lkx_results LkGuardSchedule lkx_ex2_history lkx_ex_start =
+    [LK_OK; LK_LOCKED; LK_OK; LK_OK; LK_OK; LK_NOTVESTING; LK_OK; LK_INSUFFICIENT; LK_LOCKED; LK_OK; LK_OK;
+     LK_UNAUTHORIZED; LK_OK; LK_OK; LK_OK] /\
+  lkx_no_grant_after_slash false lkx_ex2_history = true /\
+  lkx_inv (lkx_run lkx_ex2_history lkx_ex_start) /\ lkx_safe (lkx_run lkx_ex2_history lkx_ex_start) /\
+  lx_vesting (lkx_run lkx_ex2_history lkx_ex_start) = false /\ lk_bal (lx_s (lkx_run lkx_ex2_history lkx_ex_start)) = 250.
+Proof. exact lkx_ex2_runs. Qed.
+Print Assumptions C08_conversion_nonvacuous.
